@@ -139,15 +139,17 @@ theorem tgSettings_fail (c : Cur) (h : sym "[" c = .fail) : tgSettings c = .fail
   unfold tgSettings; simp only [bind, pbind, h]
 
 /-- the table-group rule once its keyword - in whatever letter case - has been read -/
-theorem tableGroupRule_from (c c0 c1 : Cur) (g : Str) (ns : List Str) (post : Str) (Q : Cur → Prop)
+theorem tableGroupRule_from (c c0 c1 : Cur) (nm g : Str) (ns : List Str) (post : Str) (Q : Cur → Prop)
     (hb : cBefore c = .ok [] c0) (hk : clit "TableGroup" c0 = .ok () c1)
-    (hr1 : c1.rest = ' ' :: '"' :: (g ++ '"' :: ' ' :: '{' :: '\n' :: (memberLines ns ++ '}' :: post))) (hp1 : c1.pastEnd = false)
-    (hg : NameOK g) (hns : ∀ n ∈ ns, NameOK n)
+    (hr1 : c1.rest = ' ' :: (nm ++ ' ' :: '{' :: '\n' :: (memberLines ns ++ '}' :: post))) (hp1 : c1.pastEnd = false)
+    (hg : Spells nm g) (hns : ∀ n ∈ ns, NameOK n)
     (hend : ∀ c7 : Cur, c7.rest = post → c7.pastEnd = false → ∃ c9, endRule c7 = .ok () c9 ∧ Q c9) :
     ∃ c9, tableGroupRule c = .ok (groupBpOf g ns) c9 ∧ Q c9 := by
-  have hN1 : (skipWs c1).rest = '"' :: (g ++ '"' :: (' ' :: '{' :: '\n' :: (memberLines ns ++ '}' :: post))) :=
-    skipWs_rest_spaces c1 1 '"' _ (by rw [hr1]; rfl) (by decide)
-  obtain ⟨c2, hnm, hr2, hp2⟩ := name_quoted_ok c1 g _ hN1 hg hp1
+  obtain ⟨_, ⟨n0, nr, hn0, hn0w, _, _⟩, hname⟩ := hg
+  have hN1 : (skipWs c1).rest = nm ++ ' ' :: ('{' :: '\n' :: (memberLines ns ++ '}' :: post)) := by
+    rw [hn0]
+    exact skipWs_rest_spaces c1 1 n0 _ (by rw [hr1, hn0]; rfl) hn0w
+  obtain ⟨c2, hnm, hr2, hp2⟩ := hname c1 _ hN1 hp1
   have hN2 : Next c2 '{' ('\n' :: (memberLines ns ++ '}' :: post)) := skipWs_rest_spaces c2 1 '{' _ (by rw [hr2]; rfl) (by decide)
   obtain ⟨q3, q4⟩ := quiet_of_next c2 '{' _ hN2 (by decide) (by decide)
   have hs2 : skipNl c2 = .ok () c2 := skipNl_stay c2 q3 q4
@@ -190,7 +192,7 @@ theorem tableGroupRule_okP (c c0 : Cur) (g : Str) (ns : List Str) (post : Str) (
     rw [skipWs_rest_head c0 'T' _ (by rw [hc']; rfl) (by decide)]; rfl
   obtain ⟨c1, hk, hr1, hp1⟩ := clit_ok "TableGroup" c0 ['T', 'a', 'b', 'l', 'e', 'G', 'r', 'o', 'u', 'p'] _ hN (by decide)
     (by simp [startsWithCaseless] <;> decide) hp
-  exact tableGroupRule_from c c0 c1 g ns post Q hb hk hr1 hp1 hg hns hend
+  exact tableGroupRule_from c c0 c1 ('"' :: (g ++ ['"'])) g ns post Q hb hk (by rw [hr1]; simp) hp1 (spells_quoted g hg) hns hend
 
 /-! ### the element form -/
 
